@@ -1,7 +1,7 @@
 (* C20 — property theorems only.  Each is closed by `exact <lemma>` (or by computation for the closed
    examples) and followed by Print Assumptions; the check re-compiles this file on every run. *)
 From Coq Require Import List NArith Bool.
-From MW Require Import C20.FsTrace C20.Model C20.Proofs.
+From MW Require Import C20.FsTrace C20.Model C20.Proofs C20.ProofsBuffered.
 Import ListNotations.
 
 (* If the recogniser accepts the trace t of a producer then, from ANY initial file system with nothing
@@ -90,3 +90,44 @@ Example C20_early_rename_unsafe :
   content_at (run (firstn 3 early_rename_trace) fs_old) FINAL = Some [1; 2]%N.
 Proof. vm_compute. repeat split. Qed.
 Print Assumptions C20_early_rename_unsafe.
+
+(* ---- producers that write through a user-space buffer (what a kill loses), for ARBITRARY payloads ----
+   bw_ops B f buf chunks = the write(2) calls a buffered file object of capacity B issues for `chunks`, and the bytes
+   still pending in user space (Model.v).  producer_ok = open temp; write chunks; flush; close; rename (transport.py
+   as it is); producer_early = the rename moved before flush + close (seeded/C20-3). *)
+
+(* close-then-rename is in the proved language for every buffer capacity, descriptor, payload and chunking *)
+Theorem C20_buffered_producer_accepted : forall B f chunks, safe_publish FINAL (producer_ok B f chunks) = true.
+Proof. exact buffered_producer_accepted. Qed.
+Print Assumptions C20_buffered_producer_accepted.
+
+(* ... and what it publishes is exactly the payload *)
+Theorem C20_buffered_producer_publishes_payload : forall B f chunks s0,
+  names s0 TEMP = None -> fds s0 f = None ->
+  content_at (run (producer_ok B f chunks) s0) FINAL = Some (concat chunks).
+Proof. exact buffered_producer_publishes_payload. Qed.
+Print Assumptions C20_buffered_producer_publishes_payload.
+
+(* rename before flush + close is rejected whatever the sizes are *)
+Theorem C20_early_rename_rejected : forall B f chunks, safe_publish FINAL (producer_early B f chunks) = false.
+Proof. exact early_rename_rejected. Qed.
+Print Assumptions C20_early_rename_rejected.
+
+(* ... and it is really unsafe exactly in the size class the search must cover: whenever bytes are pending in user
+   space at the rename (payload size not absorbed by write-through), the prefix ending with the rename shows a strict
+   prefix of the payload at FINAL *)
+Theorem C20_early_rename_partial : forall B f chunks s0,
+  names s0 TEMP = None -> fds s0 f = None -> snd (bw_ops B f [] chunks) <> [] ->
+  exists k c, content_at (run (firstn k (producer_early B f chunks)) s0) FINAL = Some c /\
+              c <> concat chunks /\ exists tail, tail <> [] /\ c ++ tail = concat chunks.
+Proof. exact early_rename_partial. Qed.
+Print Assumptions C20_early_rename_partial.
+
+(* non-vacuity of the pending-bytes hypothesis: B = 4, chunks of 3 + 3 + 2 bytes: the first two chunks are flushed when
+   the next one no longer fits, the last 2 bytes are pending at the rename; with a payload that is a multiple of the write-through size
+   nothing is pending (the sizes the first version of the search happened to use) *)
+Example C20_pending_tail_exists :
+  bw_ops 4 3%N [] [[1; 2; 3]; [4; 5; 6]; [7; 8]]%N = ([Write 3%N [1; 2; 3]%N true; Write 3%N [4; 5; 6]%N true], [7; 8]%N) /\
+  snd (bw_ops 4 3%N [] [[1; 2; 3; 4]; [5; 6; 7; 8]]%N) = [].
+Proof. vm_compute. split; reflexivity. Qed.
+Print Assumptions C20_pending_tail_exists.
